@@ -7,6 +7,8 @@ package c02
 import (
 	"encoding/json"
 	"fmt"
+	"os"
+	"path/filepath"
 	"strings"
 
 	"github.com/openconfig/goyang/pkg/yang"
@@ -21,6 +23,82 @@ type Input struct {
 	// After: a text parsed in the same process immediately before Text (the pair space); how Text is
 	// read must not depend on it
 	After *string `json:"after,omitempty"`
+	// Read: the text is a file that Modules.Read opens (by path, and by module name from the search
+	// path); the statements of the module it registers are compared
+	Read bool `json:"through_read,omitempty"`
+}
+
+// checkRead: the text reaches the reader through a file and Modules.Read. What the registered
+// module's statement says is held to the reference like the result of Parse.
+func checkRead(text string) (f *fail, excluded string, accepted bool, nstmts int) {
+	r := rfcread.Parse(text)
+	if r.Excluded != "" {
+		return nil, r.Excluded, false, 0
+	}
+	if r.Err != "" || len(r.Stmts) != 1 || r.Stmts[0].Keyword != "module" {
+		return nil, "not one module statement", false, 0
+	}
+	name := r.Stmts[0].Arg
+	dir, err := os.MkdirTemp("", "c02read")
+	if err != nil {
+		panic(err)
+	}
+	defer os.RemoveAll(dir)
+	if err := os.WriteFile(filepath.Join(dir, name+".yang"), []byte(text), 0o644); err != nil {
+		panic(err)
+	}
+	for _, route := range []string{"path", "name"} {
+		var st *yang.Statement
+		var rerr error
+		if pan, pt := core.Guard(func() {
+			ms := yang.NewModules()
+			if route == "path" {
+				rerr = ms.Read(filepath.Join(dir, name+".yang"))
+			} else {
+				ms.AddPath(dir)
+				rerr = ms.Read(name)
+			}
+			if m := ms.Modules[name]; m != nil {
+				st = m.Statement()
+			}
+		}); pan {
+			return &fail{"panic", "no panic", pt}, "", false, 0
+		}
+		if rerr != nil {
+			return &fail{"read-by-" + route + ":rejects-well-formed", "one module", rerr.Error()}, "", true, 1
+		}
+		if st == nil {
+			return &fail{"read-by-" + route + ":no-module-registered", "module " + name, "nil"}, "", true, 1
+		}
+		if d := cmp(r.Stmts, []*yang.Statement{st}); d != "" {
+			return &fail{"read-by-" + route + ":forest-differs", "", d}, "", true, 1
+		}
+	}
+	return nil, "", true, 1
+}
+
+// readTexts: a module whose description is a string over line breaks of the three kinds, blanks and
+// tabs before and after them, in double and in single quotes; the lines of the module itself end in
+// LF or in CR LF.
+func readTexts(f func(string)) {
+	pieces := []string{"a", " ", "\t", "\r\n", "\n", "\r", "b"}
+	var rec func(cur string, n int)
+	rec = func(cur string, n int) {
+		if n > 0 {
+			for _, q := range []string{`"`, "'"} {
+				for _, eol := range []string{"\n", "\r\n"} {
+					f("module m {" + eol + "  namespace \"urn:m\";" + eol + "  prefix m;" + eol + "  description " + q + cur + q + ";" + eol + "}" + eol)
+				}
+			}
+		}
+		if n == 4 {
+			return
+		}
+		for _, p := range pieces {
+			rec(cur+p, n+1)
+		}
+	}
+	rec("", 0)
 }
 
 type fail struct{ fp, exp, obs string }
@@ -191,6 +269,40 @@ func run(c *core.Ctx) {
 		runAfter(c)
 		return
 	}
+	if strings.HasPrefix(c.Shard, "read/") {
+		var shard, i int
+		fmt.Sscanf(c.Shard, "read/%d", &shard)
+		c.Res.Bound = "through Modules.Read (a file, opened by path and found by name on the search path): a module whose description is a string of <= 4 pieces over {a, b, blank, tab, LF, CR LF, CR} in double and in single quotes, the module's own lines ending in LF or CR LF"
+		readTexts(func(t string) {
+			i++
+			if i%4 != shard || c.Expired() {
+				return
+			}
+			caseNo, run := c.Begin()
+			if c.Skip(caseNo, run, Input{Text: t, Read: true}) {
+				return
+			}
+			c.Exec()
+			c.Edge(2)
+			c.StateN(1)
+			f, excl, _, _ := checkRead(t)
+			switch {
+			case excl != "":
+				c.Exclude()
+				c.Outcome("excluded:" + excl)
+			case f != nil:
+				c.Validate()
+				c.NontrivialN(1)
+				c.Outcome("FAIL:" + f.fp)
+				c.Fail(caseNo, nil, f.fp, Input{Text: t, Read: true}, f.exp, f.obs)
+			default:
+				c.Validate()
+				c.NontrivialN(1)
+				c.Outcome("read-from-file:forest-equal")
+			}
+		})
+		return
+	}
 	if c.Shard == "deep" {
 		sizes := []int{}
 		for n := 1; n <= 300; n++ {
@@ -292,6 +404,9 @@ func replay(tier string, raw json.RawMessage) (bool, string, string) {
 		core.Guard(func() { yang.Parse(*in.After, "f") })
 	}
 	f, excl, _, _ := check(in.Text)
+	if in.Read {
+		f, excl, _, _ = checkRead(in.Text)
+	}
 	if f != nil && in.After != nil {
 		f.fp = "after:" + f.fp
 	}
@@ -311,7 +426,7 @@ func init() {
 			for i := 0; i < 16; i++ {
 				out = append(out, fmt.Sprintf("after/%d", i))
 			}
-			return out
+			return append(out, "read/0", "read/1", "read/2", "read/3")
 		}, Run: run, Replay: replay,
 		Rule:        "every symbol sequence up to the bound over three small lexical alphabets (characters; lexical pieces such as quotes, escapes, comments, braces, the keyword pattern; pieces inside one statement argument incl. tabs, multi-byte runes, CR LF, same-line comments and single-quoted strings before a multi-line string) is parsed by yang.Parse and by a reference reader written from RFC 7950 section 6; accept/reject must agree, accepted forests must be equal in keywords, argument presence, exact argument strings, nesting and order, rejections must return no statements and a non-empty error; statements nested 1..300 (and 511..513, 1023..1025) deep in compact and one-brace-per-line layouts, balanced and unbalanced; the pair space: every text of a pool of short and of abruptly ending texts (unterminated quotes and comments at several columns, the cut-off after too many errors, open blocks) is parsed, then every text of a pool of column-, line- and nesting-sensitive texts in the same process, which must be read as on its own; texts containing one of the four constructs the property excludes (or whose reading depends on how a tab is counted) are counted as excluded; states = distinct symbol sequences; non-trivial = accepted with at least one statement",
 		Assumptions: []string{"the reference reader (ref/rfcread) is the RFC reading", "small alphabets and lengths stand for all texts (small-scope hypothesis)"},
